@@ -711,7 +711,12 @@ fn main() {
         }
         // panic <binary|unary> <Op> <lclass> <l> [<rclass> <r>]  : does evaluation panic / abort?
         "panic" => {
-            let e = if a[2] == "binary" {
+            let e = if a[2] == "builtin" {
+                // panic builtin <name> <class> <payload> [<class> <payload>]: the call expression name(arg, ...) on literal arguments
+                let mut args = vec![varpulis_core::ast::Arg::Positional(lit(&a[4], &a[5]).0)];
+                if a.len() >= 8 && a[6] != "Null" || (a.len() >= 8 && ["pow", "min", "max"].contains(&a[3].as_str())) { args.push(varpulis_core::ast::Arg::Positional(lit(&a[6], &a[7]).0)) }
+                Expr::Call { func: Box::new(Expr::Ident(a[3].clone())), args }
+            } else if a[2] == "binary" {
                 let (le, _) = lit(&a[4], &a[5]); let (re, _) = lit(&a[6], &a[7]);
                 Expr::Binary { op: binop(&a[3]), left: Box::new(le), right: Box::new(re) }
             } else {
